@@ -971,7 +971,8 @@ class ListBox(Widget, WidgetContainerMixin):
             0,
         )
 
-        self.shift_focus((maxcol, maxrow), rtop)
+        # a 0-row focus widget would be placed below the last row: keep it inside the list box
+        self.shift_focus((maxcol, maxrow), min(rtop, maxrow - 1))
 
     def _set_focus_first_selectable(self, size: tuple[int, int], focus: bool) -> None:
         """Choose the first visible, selectable widget below the current focus as the focus widget."""
@@ -1056,7 +1057,7 @@ class ListBox(Widget, WidgetContainerMixin):
         if coming_from == "below":
             offset = 0
         elif coming_from == "above":
-            offset = maxrow - rows
+            offset = min(maxrow - rows, maxrow - 1)
         else:
             offset = (maxrow - rows) // 2
         self.shift_focus((maxcol, maxrow), offset)
@@ -1843,7 +1844,7 @@ class ListBox(Widget, WidgetContainerMixin):
             return None
 
         # no choices available, just shift current one
-        self.shift_focus((maxcol, maxrow), max(1 - focus_rows, row_offset))
+        self.shift_focus((maxcol, maxrow), min(max(1 - focus_rows, row_offset), maxrow - 1))
 
         # final check for pathological case where we may fall short
         middle, _top, bottom = self.calculate_visible((maxcol, maxrow), True)
